@@ -109,7 +109,7 @@ def run(ctx, rep):
                     r.bad(key, "%s must leave `%s` as it is, but the field %s: an expression evaluated in the "
                           "derived context observes a different %s" % (ctor, fname, what, fname), where)
             elif want == "param":
-                if params and not self_other:
+                if params and not self_other and not self_same and not outp and not calls:
                     r.ok(key, "replaced by the parameter", where)
                 else:
                     r.bad(key, "`%s` should be the constructor's parameter (origins: %s)" % (fname, sorted(map(str, atoms))[:4]), where)
@@ -236,52 +236,95 @@ def scope_lookup(rep, lib, rid="C12-SHADOW"):
                   b.where())
 
 
-def _container_local(b, pr, operand, bb, idx):
-    """Follow moves / Rc::new back to the local that is mutated through &mut (has outparam atoms). Definitions are
-    the ones that reach the point of use, so a field that is assigned twice (cloned by a helper, then replaced) is
-    followed through its last assignment."""
+def _container_locals(b, pr, operand, bb, idx):
+    """Follow moves / Rc::new / borrows back to the local(s) that are mutated through &mut (have outparam atoms).
+    Definitions are the ones that reach the point of use; where several reach it (the value is chosen by a branch)
+    every one of them is followed. None if some way back does not end in a collection that is built here."""
     place = operand.get("place")
     if not place:
         return None
-    l = place["l"]
-    at = (bb, idx)
+    found = []
     seen = set()
-    while l not in seen:
-        seen.add(l)
+    work = [(place["l"], (bb, idx))]
+    while work:
+        l, at = work.pop()
+        if (l, at) in seen:
+            continue
+        seen.add((l, at))
+        if len(seen) > 64:
+            return None
         if pr.outparams.get(l):
-            return l
+            if l not in found:
+                found.append(l)
+            continue
         try:
             sites = pr.reaching(l, at[0], at[1])
         except Exception:
             sites = None
         if not sites:
             sites = pr._def_sites(l)
-        nxt = None
-        nat = at
+        nxts = []
         for sbb, spos, kind, payload in sites:
             if kind == "assign":
                 rv = payload[1]
                 if rv["k"] == "use" and rv["op"].get("k") in ("move", "copy"):
-                    nxt = rv["op"]["place"]["l"]
-                    nat = (sbb, spos)
+                    nxts.append((rv["op"]["place"]["l"], (sbb, spos)))
                 elif rv["k"] == "ref" and all(x == "deref" for x in rv["place"]["p"]):
-                    nxt = rv["place"]["l"]      # `&x` handed to a sibling constructor that clones it
-                    nat = (sbb, spos)
+                    nxts.append((rv["place"]["l"], (sbb, spos)))      # `&x` handed to a sibling constructor
+                else:
+                    nxts.append(None)
             else:
                 c = b.call_at[sbb]
                 if pr._is_look_through(c) and c.args and c.args[0].get("k") in ("move", "copy"):
-                    nxt = c.args[0]["place"]["l"]
-                    nat = (sbb, len(b.stmts(sbb)))
-        if nxt is None:
-            return None
-        l = nxt
-        at = nat
-    return None
+                    nxts.append((c.args[0]["place"]["l"], (sbb, len(b.stmts(sbb)))))
+                else:
+                    nxts.append(None)
+        if not nxts or any(n is None for n in nxts):
+            if len(sites) > 1:
+                return None        # one of several ways back is not a collection built here
+            return None if not found and not work else (found or None) if False else None
+        work.extend(nxts)
+    return found or None
+
+
+def _container_local(b, pr, operand, bb, idx):
+    cls = _container_locals(b, pr, operand, bb, idx)
+    return cls[0] if cls else None
+
+
+class _Rec:
+    """Collects the verdicts of one way back; the caller emits the worst."""
+    def __init__(self):
+        self.items = []
+
+    def ok(self, key, detail, where="", **kw):
+        self.items.append(("ok", key, detail, where, kw))
+
+    def bad(self, key, detail, where="", **kw):
+        self.items.append(("bad", key, detail, where, kw))
 
 
 def _extend(r, r2, key, want, b, pr, operand, bb, idx, fi, fi_input, fields, lib):
+    cls = _container_locals(b, pr, operand, bb, idx)
+    if not cls or len(cls) == 1:
+        return _extend_one(r, r2, key, want, b, pr, operand, bb, idx, fi, fi_input, fields, lib,
+                           cls[0] if cls else None)
+    # the collection is chosen by a branch: every alternative must satisfy the rule
+    recs = []
+    for cl in cls:
+        a, a2 = _Rec(), _Rec()
+        _extend_one(a, a2, key, want, b, pr, operand, bb, idx, fi, fi_input, fields, lib, cl)
+        recs.append((a, a2))
+    for target, pick in ((r, 0), (r2, 1)):
+        items = [it for rec in recs for it in rec[pick].items]
+        bads = [it for it in items if it[0] == "bad"]
+        chosen = bads[:1] or items[:1]
+        for verdict, k, detail, where, kw in chosen:
+            (target.bad if verdict == "bad" else target.ok)(k, detail, where, **kw)
+
+
+def _extend_one(r, r2, key, want, b, pr, operand, bb, idx, fi, fi_input, fields, lib, cl):
     where = b.where(bb)
-    cl = _container_local(b, pr, operand, bb, idx)
     if cl is None and want == "parents":
         # `once(self.input.clone()).chain(self.parent_inputs.iter().cloned()).collect()`
         parts = _collected_parts(b, pr, operand, lib, fi_input)
